@@ -22,6 +22,10 @@ var noNotifications = map[gmsl.RoomVersion]bool{"1": true, "2": true, "3": true,
 
 const infLevel = int64(1) << 60
 
+// event types that are never state events: an absent events[...] entry for
+// them means events_default and nothing else
+var nonStateTypes = map[string]bool{"m.room.message": true, "m.reaction": true, "m.room.encrypted": true}
+
 var namedDefaults = map[string]int64{"ban": 50, "kick": 50, "invite": 0, "redact": 50, "events_default": 0, "state_default": 50, "users_default": 0}
 var namedOrder = []string{"ban", "events_default", "invite", "kick", "redact", "state_default", "users_default"}
 
@@ -81,10 +85,10 @@ func subMap(m map[string]any, k string) map[string]any {
 }
 
 // checkNE evaluates the non-escalation predicate on an ACCEPTED power-levels
-// event directly from the old and new contents. A clause is flagged only if
-// it is violated both under the raw reading (absent = no value) and under the
-// effective reading (absent = the default), so that neither reading's
-// implementation is ever accused wrongly.
+// event directly from the old and new contents, under the effective reading
+// (an absent key has its default), which is the reading the library documents
+// for itself; see DESIGN.md 9.2 for the one remaining conservatism (absent
+// events[...] entries of possibly-state types).
 func (rm *room) checkNE(ev gmsl.PDU, auth []gmsl.PDU) {
 	r := rm.r
 	r.Probe("accepted_power_level_events")
@@ -192,7 +196,8 @@ func (rm *room) checkNE(ev gmsl.PDU, auth []gmsl.PDU) {
 		raw := (op != np || o != n) && ((op && o > L) || (np && n > L))
 		oe, ne := eff(o, op, namedDefaults[k]), eff(n, np, namedDefaults[k])
 		effv := oe != ne && (oe > L || ne > L)
-		if raw && effv {
+		_ = raw
+		if effv {
 			fail("threshold:"+k, k, o, op, n, np)
 		}
 	}
@@ -219,7 +224,8 @@ func (rm *room) checkNE(ev gmsl.PDU, auth []gmsl.PDU) {
 		raw := (op != np || o != n) && ((np && n > L) || (op && other && o >= L))
 		oe, ne := eff(o, op, oudv), eff(n, np, nudv)
 		effv := oe != ne && (ne > L || (other && oe >= L))
-		if raw && effv {
+		_ = raw
+		if effv {
 			fail("user", "users["+u+"]", o, op, n, np)
 		}
 	}
@@ -241,12 +247,14 @@ func (rm *room) checkNE(ev gmsl.PDU, auth []gmsl.PDU) {
 		for _, k := range kl {
 			o, op := get(om, k)
 			n, np := get(nm, k)
-			raw := (op != np || o != n) && ((op && o > L) || (np && n > L))
-			if !raw {
+			if op == np && o == n {
 				continue
 			}
 			all := true
 			for i := range defaults {
+				if name == "events" && i == 1 && nonStateTypes[k] {
+					continue // a message-like type never falls back to state_default
+				}
 				oe, ne := eff(o, op, defaults[i]), eff(n, np, defaultsNew[i])
 				if !(oe != ne && (oe > L || ne > L)) {
 					all = false
